@@ -420,12 +420,12 @@ def world_tasks(ctx, quick):
         tasks.append((w, "C24-%d-%s-%d" % (ctx.seed, name, len(tasks)), maxn_key, opts))
 
     if quick:
-        add("square", "big", chem=0, direct=[("fresh", (4, True)), ("add", (2, False, 2, False, False))])
-        add("honeycomb", "big", chem=0, lattice=True, direct=[("add", (3, True, 1, True, True))])
-        add("rect2site", "big", chem=0, nshell=2, subset=True)
+        add("square", "big", chem=0, budget=12, direct=[("fresh", (4, True)), ("add", (2, False, 2, False, False))])
+        add("honeycomb", "big", chem=0, lattice=True, budget=12, direct=[("add", (3, True, 1, True, True))])
+        add("rect2site", "big", chem=0, nshell=2, subset=True, budget=12)
         add("kagome", "big", chem=0, budget=8, trivial_keep=0.2)
-        add("fcc", "small", chem=0, direct=[("fresh", (3, False)), ("add", (2, True, 1, True, False))])
-        add("hcp", "small", chem=0, lattice=True, direct=[("fresh", (3, True)), ("add", (1, False, 2, False, True))])
+        add("fcc", "small", chem=0, budget=12, direct=[("fresh", (3, False)), ("add", (2, True, 1, True, False))])
+        add("hcp", "small", chem=0, lattice=True, budget=12, direct=[("fresh", (3, True)), ("add", (1, False, 2, False, True))])
         add("b2", "small", chem=rng.randrange(2), nshell=2, budget=8, trivial_keep=0.2, direct=[("fresh", (3, False))])
         add("diamond", "small", chem=0, budget=8, trivial_keep=0.2, jitter=1e-10)     # noise below the symmetry threshold
         add("fccoct", "small", chem=2, budget=8, trivial_keep=0.2)
@@ -447,7 +447,7 @@ def world_tasks(ctx, quick):
                   ("add", (1, False, 2, True, True)), ("add", (2, False, 2, False, False))]
             add(name, "mid", chem=0, direct=d3, trivial_keep=0.3)
             add(name, "small", chem=None, nshell=2, subset=True, lattice=True, direct=d3[:2], trivial_keep=0.3)
-        for n in range(30):
+        for n in range(60):
             w = worlds.random_world(rng, maxatoms=4)
             add(w["name"], "big" if w["dim"] == 2 else "small", w=w, subset=bool(n % 2), lattice=bool(n % 3 == 0),
                 nshell=1 + (n % 2), trivial_keep=0.3, jitter=1e-10 if n % 4 == 1 else 0.0)
@@ -480,6 +480,7 @@ def run(ctx):
                     "states": g["nodes"], "edges": g["edges"]})
     ctx.info("t_model_s", round(time.time() - t0, 1))
     tasks = [(w, seed, graphs[gk], opts) for (w, seed, gk, opts) in world_tasks(ctx, quick)]
+    from onsager import crystalStars      # noqa: F401 -- import once, before the workers are forked
     t1 = time.time()
     with ProcessPoolExecutor(max_workers=8 if quick else 12, mp_context=multiprocessing.get_context("fork")) as ex:
         results = list(ex.map(replay_world, tasks))
@@ -573,6 +574,10 @@ def report(ctx, r, f):
         key = "%sraise|%s|%s|%s" % (dimer, clause, m["action"].split(">")[-1], m.get("raised"))
     else:
         key = "%sedge|%s|%s|%s|%s|%s" % (dimer, clause, m["action"], role, base["family"], base["net"])
+    seen = ctx.__dict__.setdefault("_c24_keys", set())      # one replay file per key and run
+    if key in seen:
+        return
+    seen.add(key)
     ob = case["obs"][oi - 1] if oi else None
     exp = [case["descs"][d - 1] for d in (case["edges"][e]["cands"][0])]
     what = ("world %s (sublattice %d, network %s, %d jumps): after %s the %s (slot %s) violates '%s'; call raised %s; "
